@@ -393,7 +393,7 @@ def member_calls(f, field):
     return out
 
 
-def helper_member_call(f, field):
+def helper_member_call(f, field, lvalues=True, returns=True):
     """Calls in f to a private helper of the same class that does nothing but call this.<field> with its own parameters (as lvalues, in
     order) and return the result: [(call node in f)]. The helper stands for the member call at that site."""
     out = []
@@ -403,19 +403,24 @@ def helper_member_call(f, field):
                 continue
             inner = member_calls(g, field)
             rets = g.return_nodes()
-            if len(inner) != 1 or len(rets) != 1:
+            if len(inner) != 1:
                 continue
-            rv = g.value_source(g.kids(rets[0])[0]) if g.kids(rets[0]) else None
-            if rv != inner[0] and inner[0] not in ([rv] + g.descendants(rv) if rv else []):
-                continue
-            if [arg_source(g, a) for a in g.call_args(inner[0])] == [p['id'] for p in g.params] and all(is_lvalue_arg(g, a) for a in g.call_args(inner[0])):
+            if returns:
+                if len(rets) != 1:
+                    continue
+                rv = g.value_source(g.kids(rets[0])[0]) if g.kids(rets[0]) else None
+                if rv != inner[0] and inner[0] not in ([rv] + g.descendants(rv) if rv else []):
+                    continue
+            elif not g.pos_postdominates(g.pos(inner[0]), (g.entry, 0)) or len([x for x in g.calls() if not g.nodes[x].get('c') is None and short((g.callee(x) or {}).get('key', '')) not in ('std::move', 'std::forward')]) != 1:
+                continue      # the helper does something besides the one member call
+            if [arg_source(g, a) for a in g.call_args(inner[0])] == [p['id'] for p in g.params] and (not lvalues or all(is_lvalue_arg(g, a) for a in g.call_args(inner[0]))):
                 out.append(n)
     return out
 
 
 def check_condfunctor(ctx, tu, f, ma):
     conds = member_calls(f, 'condition') or helper_member_call(f, 'condition')
-    funcs = member_calls(f, 'func')
+    funcs = member_calls(f, 'func') or helper_member_call(f, 'func', lvalues=False, returns=False)
     ok = len(conds) == 1 and len(funcs) == 1
     ctx.ob('C12.F5', f, 'one condition call and one function call', ok, detail='condition calls %d, function calls %d' % (len(conds), len(funcs)))
     if not ok:
